@@ -247,7 +247,11 @@ def run(chk, replay=None):
         return 0 if e.getAttrNS(attr[0], attr[1]) == v else 1
 
     # ------------------------------------------------------------ 1 translate
-    tr = T.Translation(common.REPO)
+    try:
+        tr = T.Translation(common.REPO)
+    except Exception as ex:      # the source no longer has the form the translator reads
+        chk.obligation('translator: attrconverters.py / the schema can be read', False, repr(ex))
+        return chk.finish()
     chk.write_generated('AttrConv', tr.lean_code())
     chk.write_generated('AttrSchema', tr.lean_schema())
     chk.write_generated('AttrTable', tr.lean_table())
